@@ -117,7 +117,11 @@ func c07Reshare(nt *vfbNet, prev *c07Epoch, members []int, thr int, tRound uint6
 	return ep
 }
 
-func c07Run(run *vfRun, c c07Case) {
+func c07Run(run *vfRun, c c07Case) { c07RunMode(run, c, "c07") }
+
+// c07RunMode: mode "c07" arms the continuity / progress / previous-group oracles; mode "c04" runs the same
+// transition workload with only the emission-timing oracle of C04 armed ("around resharing").
+func c07RunMode(run *vfRun, c c07Case, mode string) {
 	sch, _ := crypto.SchemeFromName(c.Scheme)
 	universe := c.N1 + 3
 	cfg := vfbConfig{Scheme: sch, N: c.N1, Thr: c.T1, Period: time.Duration(c.PeriodS) * time.Second, Catchup: time.Duration(c.CatchupS) * time.Second,
@@ -142,12 +146,23 @@ func c07Run(run *vfRun, c c07Case) {
 		}
 	}
 	var puts int64
-	nt.onPut = func(n *vfbNode, b *common.Beacon, src string, seq int64) {
-		atomic.AddInt64(&puts, 1)
-		orc.onPut(n, b, src, seq)
+	if mode == "c07" {
+		nt.onPut = func(n *vfbNode, b *common.Beacon, src string, seq int64) {
+			atomic.AddInt64(&puts, 1)
+			orc.onPut(n, b, src, seq)
+		}
+		nt.onSyncSend = orc.onSyncSend
+		nt.onPutRet = orc.onPutRet
+	} else {
+		nt.onPut = func(n *vfbNode, b *common.Beacon, src string, seq int64) { atomic.AddInt64(&puts, 1) }
+		nt.onEmit = func(from *vfbNode, to int, p *proto.PartialBeaconPacket, clk int64) {
+			run.Count("partials_emitted_around_reshare", 1)
+			if tr := c04TimeOfRound(nt.genesis, c.PeriodS, p.GetRound()); clk < tr {
+				run.Violation("C04/partial-released-before-round-time/around-reshare-"+c.Shape,
+					fmt.Sprintf("node %d sent its partial for round %d at own clock %d, %d s before that round's time (reshare shape %s)", from.pos, p.GetRound(), clk, tr-clk, c.Shape), info)
+			}
+		}
 	}
-	nt.onSyncSend = orc.onSyncSend
-	nt.onPutRet = orc.onPutRet
 	// the C01/C02 oracle reports under their own ids; re-label for this run
 	// (a gap / fork / unverifiable beacon at or after the transition is a C07 violation)
 	var injMu sync.Mutex
@@ -168,7 +183,7 @@ func c07Run(run *vfRun, c c07Case) {
 		}
 		for _, rc := range pc.rounds {
 			for _, sg := range rc.sigs {
-				if d, hit := injected[string(sg)]; hit {
+				if d, hit := injected[string(sg)]; hit && mode == "c07" {
 					run.Violation(fmt.Sprintf("C07/previous-group-partial-cached-after-transition/%s", c.Shape),
 						"a partial made with a share of the previous group was accepted into the aggregator's cache of a node that had switched: "+d, info)
 					delete(injected, string(sg))
@@ -298,7 +313,7 @@ func c07Run(run *vfRun, c c07Case) {
 				nt.Step(time.Second)
 				time.Sleep(30 * time.Millisecond)
 			}
-			if who := behind(); len(who) > 0 {
+			if who := behind(); len(who) > 0 && mode == "c07" {
 				run.Violation(fmt.Sprintf("C07/chain-halts-after-transition/%s/%s", c.Shape, c.Outage),
 					fmt.Sprintf("transition at round %d, %d of %d new-group members running (threshold %d); %d logical seconds later still behind: %v", tRound, len(live), len(next.members), next.group.Threshold, 2*B, who), info)
 				return
@@ -351,7 +366,9 @@ func c07Run(run *vfRun, c c07Case) {
 		// next epoch (thorough): back to the first shape's inverse
 		members2, t2 = seqInts(c.N1), c.T1
 	}
-	orc.finalScan()
+	if mode == "c07" {
+		orc.finalScan()
+	}
 	run.Count("puts_observed", atomic.LoadInt64(&puts))
 	run.Eval(fmt.Sprintf("%s/%s/%d-%d/%s/%v-%d/%d+%d/%s/%d", c.Scheme, c.Backend, c.N1, c.T1, c.Shape, c.Members2, c.T2, c.AtRound, c.Lead, c.Outage, c.Epochs))
 	run.Seen("shapes", c.Shape+"/"+c.Outage)
